@@ -284,7 +284,8 @@ def run(ctx):
             keep.append(case)
         elif o['r'] != ref['r']:
             dist['refused'] += 1
-            ctx.add_violation({'kind': 'sources-differ-acceptance'},
+            env_only = bool(env) and file_t is None and not opt_t and not o_l
+            ctx.add_violation({'kind': 'sources-differ-acceptance', 'env_only': env_only},
                               'settings accepted as one dict are %s when spread over sources' % o['r'], dict(case, observed=o))
     bad = coq_check(ctx, 'configure', 'conf_ok', items)
     if bad is not None:
@@ -400,7 +401,9 @@ def run(ctx):
         if 'generate' in o:
             if o['generate']['r'] == 'internal':
                 e = o['generate']['exc']
-                needs_cpp = 'cpp' not in c['keys'] and c['target'] in ('java', 'objc', 'cppcli')
+                # the marshalling models of every other generator read <decl>.cpp.*; the yaml target dumps the models of all configured generators
+                needs_cpp = 'cpp' not in c['keys'] and (c['target'] in ('java', 'objc', 'cppcli') or
+                                                        (c['target'] == 'yaml' and any(k in c['keys'] for k in ('java', 'jni', 'objc', 'objcpp', 'cppcli'))))
                 ctx.add_violation({'kind': 'internal-error', 'where': 'generate', 'cpp_generator_missing': needs_cpp},
                                   "generate('%s') with generators %s configured ended in %s: %s" % (c['target'], c['keys'], e.get('cls'), e.get('msg')),
                                   {'keys': c['keys'], 'target': c['target'], 'observed': o['generate']})
